@@ -124,7 +124,7 @@ func panicClass(msg string) string {
 
 func TestVerifC02Text(t *testing.T) {
 	L := ev.Begin("C02", "c02-text", "exploration",
-		"config texts: (a) 1..3 targets on one route with every combination of 19 weight spellings (non-finite, huge, denormal, hex, junk) x 10 paths (bad globs, globs with a brace that is never closed); (b) dst x opts x weight; (c) `route weight` with every weight over 1-2 matching targets; (d) junk lines, bytes that are not UTF-8 in every field; each through NewTable then 270 lookups (3 matchers x 2 pickers x hosts x paths) + String + Dump, with the prometheus and statsd_raw metrics providers installed and one observation per looked-up target; (e) the same definitions through NewTableCustom incl. nil/null/empty JSON. oracle: (table,nil) or (nil,err), never a panic. non-trivial = text accepted as a table")
+		"config texts: (a) 1..3 targets on one route with every combination of 19 weight spellings (non-finite, huge, denormal, hex, junk) x 10 paths (bad globs, globs with a brace that is never closed); every path pattern also as the second and third route of a host that already has routes; (b) dst x opts x weight; (c) `route weight` with every weight over 1-2 matching targets; (d) junk lines, bytes that are not UTF-8 in every field; each through NewTable then 270 lookups (3 matchers x 2 pickers x hosts x paths) + String + Dump, with the prometheus and statsd_raw metrics providers installed and one observation per looked-up target; (e) the same definitions through NewTableCustom incl. nil/null/empty JSON. oracle: (table,nil) or (nil,err), never a panic. non-trivial = text accepted as a table")
 	type job struct {
 		text string
 	}
@@ -210,6 +210,14 @@ func TestVerifC02Text(t *testing.T) {
 		"*m{", "foo.com{", "a{", "*{"} {
 		jobs = append(jobs, "route add s "+h+"/ http://10.0.0.1:80/\n")
 		jobs = append(jobs, "route add ok foo.com/ http://10.0.0.2:80/\nroute add s "+h+"/x http://10.0.0.1:80/\n")
+	}
+	// every path pattern also as the SECOND route of a host that already has one (the table takes another way then:
+	// "add new route to existing host"), with and without a host, before and after a valid sibling
+	for _, pth := range append(append([]string{}, c02Paths...), "/[z-a]", "/[Z-a]", "/[a-Z]", "/{a,b", "/x[") {
+		for _, h := range []string{"", "foo.com"} {
+			jobs = append(jobs, "route add ok "+h+"/ok http://10.0.0.2:80/\nroute add s "+h+pth+" http://10.0.0.1:80/\n")
+			jobs = append(jobs, "route add ok "+h+"/ok http://10.0.0.2:80/\nroute add ok2 "+h+"/ok2 http://10.0.0.3:80/\nroute add s "+h+pth+" http://10.0.0.1:80/\nroute add ok3 "+h+"/ok3 http://10.0.0.4:80/\n")
+		}
 	}
 	// (d)
 	for _, l := range []string{"", "\n\n", "route", "route add", "route add a", "route add a b", "route del", "route weight", "route weight a b weight", "route add a b c weight", "route add a b c tags", "route add a b c tags \"", "route add a b c opts \"a b=c d==\"", "# c\n// d", "route add s  /x   http://h/   weight   0.1   tags   \"a , b\"", "route foo", "ROUTE ADD a b c", "/", "#", "r", " / ", "//", "/\n/x", "route add s /p http://h/\n/", "route add s \x00 http://h/", "route add s / \x00", "route del s / %zz", "route del tags \"\"", "route add s foo.com:80 tcp://h:1", "route add s :80 tcp://h:1 opts \"proto=tcp\"", strings.Repeat("route add s /p http://h/ weight 0.0001\n", 3), "route add s " + strings.Repeat("a", 70000) + " http://h/",
